@@ -3,13 +3,13 @@ from vlib import *
 import e2e3 as Y
 
 
-@contract("nanoemoji.maximum_color._run", props=["C12"])
+@contract("nanoemoji.maximum_color._run", props=["C12", "C08"])
 class e2e_maximum_color:
     bounded_only = True
     gen = Y.gen_max_color
     native_call = Y.run_maximum_color
-    n_quick = 4
-    n_thorough = 60
+    n_quick = 8
+    n_thorough = 80
     ensures = {
         # the written font keeps cmap, advances and the original colour table's picture, adds
         # the complementary vector table (and CBDT with --bitmaps), all colour tables paint the
@@ -18,6 +18,8 @@ class e2e_maximum_color:
             glyphs, overrides, bitmaps, keep_names, result
         )
         == [],
+        # C08 for this pipeline: the same input under another PYTHONHASHSEED, byte for byte
+        "same-bytes-under-another-hash-seed": lambda result: result["font_out"] is None or result["same_bytes_other_hash_seed"] is True,
     }
 
 
